@@ -235,6 +235,17 @@ theorem C11_swallowed_below_check_height (crh h : Nat) (e : CbErr) (hh : h < crh
 
 /-! ### T-gen -/
 
+/-- every built-in network preset points the DPoS share at the stake-REWARD address (not the stake
+    pool), the CR share at the CR assets address and POW-mode shares at the destroy address -/
+theorem C11_gen_addresses :
+    Gen.C11.netAddrs.map (·.net) = ["mainnet", "testnet", "regnet"] ∧
+    (∀ n ∈ Gen.C11.netAddrs,
+      n.dposV2Reward = "STAKEREWARDXXXXXXXXXXXXXXXXXFD5SHU" ∧ n.dposV2Reward ≠ n.stakePool ∧
+      n.crAssets = "CRASSETSXXXXXXXXXXXXXXXXXXXX2qDX5J" ∧ n.destroy = "ELANULLXXXXXXXXXXXXXXXXXXXXXYvs3rr") ∧
+    Gen.C11.stakeRewardAddress = "STAKEREWARDXXXXXXXXXXXXXXXXXFD5SHU" ∧
+    Gen.C11.stakePoolAddress = "STAKEPooLXXXXXXXXXXXXXXXXXXXpP1PQ2" := by
+  decide +kernel
+
 /-- the constants `c30`, `c35` of the float model are the binary64 values the Go compiler gives
     the literals `0.3`, `0.35` (sign 0, exponent 0x3FD = 2^-2, 52-bit mantissa); `0.25` is 2^-2 -/
 theorem C11_gen_float_constants :
